@@ -78,7 +78,7 @@ def parse(out, rc, wall):
 
 
 def run(module, cfg_text, *, env=None, workers=NCPU, timeout=600, simulate=None, depth=None, coverage=False,
-        extra_files=None, seed=None, deadlock=False, dfs=False, java_opts=None, keep_dir=None):
+        extra_files=None, seed=None, deadlock=False, dfs=False, java_opts=None, keep_dir=None, cont=False):
     """Run TLC on spec/<module>.tla with the given cfg text.  extra_files: {name: text} written next to the spec."""
     with scratch("tlc") as d:
         for f in glob.glob(os.path.join(SPEC, "*.tla")):
@@ -97,6 +97,8 @@ def run(module, cfg_text, *, env=None, workers=NCPU, timeout=600, simulate=None,
             pass  # deadlock checking is controlled from the cfg (CHECK_DEADLOCK FALSE)
         if coverage:
             cmd += ["-coverage", "1"]
+        if cont:
+            cmd += ["-continue"]
         if seed is not None:
             cmd += ["-seed", str(seed)]
         if simulate:
@@ -115,7 +117,9 @@ def run(module, cfg_text, *, env=None, workers=NCPU, timeout=600, simulate=None,
             raise MachineryError(f"TLC timeout after {timeout}s on {module}")
         r = parse(p.stdout, p.returncode, wall)
         if r.error or (p.returncode != 0 and not r.violated):
-            tail = "\n".join([l[:300] for l in p.stdout.splitlines() if not l.startswith('"')][-25:])
+            ls = [l[:300] for l in p.stdout.splitlines() if not l.startswith('"') and not l.lstrip().startswith("|")]
+            i0 = next((i for i, l in enumerate(ls) if l.startswith("Error:")), max(0, len(ls) - 25))
+            tail = "\n".join(ls[i0:i0 + 40])
             raise MachineryError(f"TLC failed on {module} (rc={p.returncode}): {r.error}\n{tail}")
         return r
 
